@@ -7,6 +7,7 @@ PRUNE_EXH = {"name": "prune-exh", "suite": "prune-exh", "quick": ["--universe", 
 VIEWS = {"name": "views", "suite": "views", "quick": ["--count", 25000, "--depth", 2], "thorough": ["--count", 300000, "--depth", 2]}
 VIEWS0 = {"name": "views0", "suite": "views", "quick": ["--count", 15000, "--depth", 0], "thorough": ["--count", 200000, "--depth", 0]}
 VIEWS_EXH = {"name": "views-exh", "suite": "views-exh", "quick": ["--universe", 1, "--bound", 5], "thorough": ["--universe", 3, "--bound", 10]}
+API = {"name": "api", "suite": "api", "quick": ["--count", 3000], "thorough": ["--count", 100000]}
 INT_ASSUME = [
     "i32 arithmetic modelled on unbounded Int (overflow is C17's subject); values in the explored inputs are small",
     "the engine theorems speak about runs that did not exhaust the model's fuel; the driver runs with fuel 10^7 and reports out-of-fuel explicitly (never seen)",
@@ -14,14 +15,14 @@ INT_ASSUME = [
 ]
 
 CHECKS = {
-    "C01": {"suites": [ENGINE], "assumptions": INT_ASSUME},
-    "C02": {"suites": [ENGINE], "assumptions": INT_ASSUME},
-    "C03": {"suites": [ENGINE], "assumptions": INT_ASSUME},
-    "C04": {"suites": [ENGINE], "assumptions": INT_ASSUME + ["optimisation fast path and root LP step are switched off by hook H4 in the engine-level runs (call-site findings)"]},
+    "C01": {"suites": [ENGINE, API], "assumptions": INT_ASSUME},
+    "C02": {"suites": [ENGINE, API], "assumptions": INT_ASSUME},
+    "C03": {"suites": [ENGINE, API], "assumptions": INT_ASSUME},
+    "C04": {"suites": [ENGINE, API], "assumptions": INT_ASSUME + ["optimisation fast path and root LP step are switched off by hook H4 in the engine-level runs (call-site findings)"]},
     "C05": {"suites": [PRUNE, PRUNE_EXH, ENGINE], "assumptions": INT_ASSUME, "exhaustive_in_thorough": True},
     "C12": {"suites": [VIEWS0, PRUNE], "assumptions": INT_ASSUME + ["float arms: not yet stated as theorems in this revision"]},
     "C13": {"suites": [VIEWS, VIEWS_EXH], "assumptions": INT_ASSUME, "exhaustive_in_thorough": True},
-    "C14": {"suites": [ENGINE], "assumptions": INT_ASSUME},
+    "C14": {"suites": [ENGINE, API], "assumptions": INT_ASSUME},
     "C15": {"suites": [{"name": "limits", "suite": "limits", "quick": ["--count", 120], "thorough": ["--count", 3000]},
                        {"name": "limits-deep", "suite": "limits-deep", "quick": ["--count", 4], "thorough": ["--count", 40]}],
             "assumptions": INT_ASSUME + ["wall-clock time is an abstract monotone oracle: hook H6 makes the k-th engine check find the limit exceeded; the memory estimate is the modelled function of stack depth and iteration count"]},
